@@ -38,6 +38,9 @@ def load_findings():
     return out
 
 
+HASHSEEDS = {"quick": "0", "thorough": "0"}
+
+
 def run_one(check_id, shard, tmp, idx):
     spec = os.path.join(tmp, "shard%d.json" % idx)
     out = os.path.join(tmp, "out%d.json" % idx)
@@ -85,7 +88,8 @@ def main(argv=None):
         with open(args.replay) as f:
             rep = json.load(f)
         check_id = rep["property"]
-        shard = {"name": "replay", "replay": rep, "seed": rep.get("seed", 0), "tier": rep.get("tier", "quick")}
+        shard = {"name": "replay", "replay": rep, "seed": rep.get("seed", 0), "tier": rep.get("tier", "quick"),
+                 "env": dict(rep.get("violation", {}).get("env", {}))}
         tmp = tempfile.mkdtemp(prefix="fv-replay-")
         try:
             r = run_one(check_id, shard, tmp, 0)
@@ -113,6 +117,10 @@ def main(argv=None):
         s.setdefault("name", "shard%d" % i)
         s["seed"] = seed
         s["tier"] = tier
+        # set/dict iteration order is part of funsor's "schedule" (frozensets of reduced variables, operand sets): shards rotate through
+        # several string-hash seeds so that different iteration orders are explored; the seed is recorded in every replay
+        hs = [h for h in os.environ.get("FV_HASHSEEDS", HASHSEEDS[tier]).split(",") if h]
+        s.setdefault("env", {}).setdefault("PYTHONHASHSEED", hs[i % len(hs)])
     tmp = tempfile.mkdtemp(prefix="fv-%s-" % check_id)
     try:
         with ThreadPoolExecutor(max_workers=max(1, args.jobs)) as ex:
@@ -145,7 +153,9 @@ def main(argv=None):
                 samples.append(s)
         for v in r["violations"]:
             v["shard"] = r["shard"].get("name")
+            v["env"] = r["shard"].get("env", {})
             violations.append(v)
+        counters["hashseed:%s" % r["shard"].get("env", {}).get("PYTHONHASHSEED", "0")] += 1
         inconclusive.extend(r.get("inconclusive", []))
 
     known = load_findings().get(check_id, {})
